@@ -34,6 +34,10 @@ package label
 //@   pure
 //@   ensures [iff_last_segment] r <==> t.Name == lastSeg(t.Package)
 
+//@ func (TargetLabel).IsTest(t) (r)
+//@   pure
+//@   ensures [suffix] r <==> hasSuffix(t.Name, "test")
+
 //@ func ParseTargetPattern(currentPackage, pattern) (p, err)
 //@   pure
 //@   ensures [relative_needs_colon] !hasPrefix(pattern, "//") && !contains(pattern, ":") ==> err != nil
@@ -50,8 +54,7 @@ package label
 
 //@ func (TargetPattern).Matches(p, t) (m)
 //@   pure
-//@   ensures [spec] m <==> ite(p.recursive, p.prefix == "" || t.Package == p.prefix || hasPrefix(t.Package, p.prefix + "/"), t.Package == p.prefix) &&
-//@                        (p.targetPattern == "" || p.targetPattern == "all" || p.targetPattern == "..." || t.Name == p.targetPattern)
+//@   ensures [spec] m <==> patMatch(p, t)
 
 //@ func (TargetPattern).String(p) (s)
 //@   pure
